@@ -7,6 +7,11 @@ import ParryModel.C16.Theorems3
 import ParryModel.C16.Theorems4
 import ParryModel.C16.Theorems5
 import ParryModel.C16.Theorems6
+import ParryModel.C16.Theorems7
+import ParryModel.C16.Theorems8
+import ParryModel.C16.Theorems9
+import ParryModel.C16.Theorems10
+import ParryModel.C16.Theorems11
 /-!
 # C16 property theorems: ear clipping and Hertel–Mehlhorn, for every linearly ordered field.
 
@@ -164,5 +169,59 @@ theorem polygon_pipeline_sound (pts : Array (V2 K)) (out : Array (Nat × Nat × 
   have h1 := hm_pieces_ccw sq pts out hpos p hp
   have h2 := hm_pieces_locally_convex sq pts out (fun t ht => (hpos t ht).le) p hp
   exact ⟨h2.1, h1, h2.2⟩
+
+/-! ## the complete ear-clipping clause on strictly convex input -/
+
+/-- **C16, ear clipping tiles every strictly convex counter-clockwise polygon exactly** (`n ≥ 3`; no assumption
+besides strict convex position, nothing left to an oracle).  `triangulate_ear_clipping` returns `Some(out)` with
+* `n - 2` triangles, each strictly counter-clockwise, over the input vertices;
+* `Σ area2(triangle) = shoelace2(polygon)`;
+* pairwise disjoint open triangles;
+* every interior point of the polygon (strictly left of every edge) in some closed triangle;
+* every closed triangle inside the polygon (on the closed left of every edge). -/
+theorem ear_clipping_tiles_convex (pts : Array (V2 K)) :
+    letI := fieldNum K sq
+    3 ≤ pts.size → StrictConvexRange (pt pts) pts.size →
+    ∃ out, triangulateEarClipping pts = some out ∧ out.size + 2 = pts.size ∧
+      (∀ t ∈ out.toList, t.1 < pts.size ∧ t.2.1 < pts.size ∧ t.2.2 < pts.size ∧
+        0 < area2 (pt pts t.1) (pt pts t.2.1) (pt pts t.2.2)) ∧
+      (out.toList.map fun t => area2 (pt pts t.1) (pt pts t.2.1) (pt pts t.2.2)).sum = shoelace2 pts.toList ∧
+      (∀ i j (_ : i < j) (hj : j < out.size) (p : V2 K),
+        ¬ (InsideTri (pt pts out[i].1) (pt pts out[i].2.1) (pt pts out[i].2.2) p ∧
+           InsideTri (pt pts out[j].1) (pt pts out[j].2.1) (pt pts out[j].2.2) p)) ∧
+      (∀ p, StrictlyLeftOfAll (pt pts) (List.range pts.size) p →
+        ∃ t ∈ out.toList, InClosedTri (pt pts t.1) (pt pts t.2.1) (pt pts t.2.2) p) ∧
+      (∀ t ∈ out.toList, ∀ p, InClosedTri (pt pts t.1) (pt pts t.2.1) (pt pts t.2.2) p →
+        ∀ e ∈ polyEdges (List.range pts.size), 0 ≤ area2 (pt pts e.1) (pt pts e.2) p) := by
+  intro h3 hc
+  obtain ⟨out, hout⟩ := ear_clipping_succeeds_convex sq pts h3 hc
+  obtain ⟨hlen, hidx, hpos, hsum⟩ := ear_clipping_sound sq pts out hout
+  have hcp : ConvexPos (@pt K (fieldNum K sq) pts) (List.range pts.size) :=
+    (convexPos_range _ _).mpr fun i j k a b c => (hc i j k a b c).le
+  refine ⟨out, hout, hlen, ?_, hsum, ear_clipping_disjoint_convex sq pts out hout hcp,
+    fun p hp => ear_clipping_covers_kernel sq pts out p hout hp,
+    ear_clipping_inside_convex sq pts out hout hcp⟩
+  intro t ht
+  obtain ⟨a, b, c, _⟩ := hidx t ht
+  exact ⟨a, b, c, hpos t ht⟩
+
+/-! ## `hertel_mehlhorn` (point form) -/
+
+/-- **`hertel_mehlhorn` (points) is `hertel_mehlhorn_idx` mapped through the vertex buffer — every input.**  Same number of
+pieces, the `k`-th point piece is the `k`-th index piece with every index replaced by its vertex, and when the input
+triangles use valid indices (`< n`) so does every piece: the `vertices[idx as usize]` look-ups of the wrapper cannot go
+out of bounds. -/
+theorem hertel_mehlhorn_pts_spec (pts : Array (V2 K)) (tris : Array (Nat × Nat × Nat)) :
+    letI := fieldNum K sq
+    (hertelMehlhorn pts tris).size = (hertelMehlhornIdx pts tris).size ∧
+    (∀ k (h1 : k < (hertelMehlhorn pts tris).size) (h2 : k < (hertelMehlhornIdx pts tris).size),
+      (hertelMehlhorn pts tris)[k] = (hertelMehlhornIdx pts tris)[k].map (pt pts)) ∧
+    ((∀ t ∈ tris.toList, t.1 < pts.size ∧ t.2.1 < pts.size ∧ t.2.2 < pts.size) →
+      ∀ p ∈ (hertelMehlhornIdx pts tris).toList, ∀ x ∈ p.toList, x < pts.size) := by
+  refine ⟨by simp [hertelMehlhorn], fun k h1 h2 => by simp [hertelMehlhorn], ?_⟩
+  intro hidx p hp x hx
+  obtain ⟨t, ht, hxt⟩ := (hertel_mehlhorn_sound sq pts tris).2.2 p hp x hx
+  obtain ⟨a, b, c⟩ := hidx t ht
+  rcases hxt with rfl | rfl | rfl <;> assumption
 
 end C16
